@@ -1,8 +1,6 @@
 (* Executable entry points of the C04 model (external products, CMux, GGSW expansion).
-   run_c04   : level L1 — output limbs of glwe_external_product(_assign) and cmux (dsize <= 2: for larger dsize the result
-               depends on the prior content of the un-zeroed accumulator taken from scratch, which no input determines)
-               recomputed from the input limbs and the GGSW as dumped before preparation; `None` where the implementation
-               panics (gglwe_external_product with more result rows than input rows); [1] for the level-L2 operations.
+   run_c04   : level L1 — output limbs of glwe_external_product(_assign) and cmux recomputed from the input limbs and the
+               GGSW as dumped before preparation; [1] for the level-L2 operations.
    oracle_c04: level L2 — phase(res) = m2 (x) phase(a) + E, |E| inside the deterministic envelope of Model/Gadget.v;
                CMux: phase(res) = phase(selected input) + E; every cell (row, col) of a produced GGSW decrypts to
                m2 * 2^-((row+1) dsize b) (col = 0) resp. s_{col-1} (x) m2 * 2^-(...) (phase convention ct[0] + sum ct[i+1] (x) s_i).
@@ -33,8 +31,7 @@ Definition run_cmux (ps : list Z) (vs : list (list Z)) : option (list (list Z)) 
 Definition run_c04 (code : Z) (ps : list Z) (vs : list (list Z)) : option (list (list Z)) :=
   match code with
   | 4001 | 4002 => run_ext ps vs
-  | 4003 => if Nat.ltb (nx ps 5) (nx ps 6) then None else Some [[1]]   (* a.at(row, col) with row >= a.dnum: slice index out of range *)
-  | 4010 => if Nat.leb (h_dsize ps) 2 then run_cmux ps vs else Some [[1]]
+  | 4010 => run_cmux ps vs
   | _ => Some [[1]]
   end.
 
@@ -84,7 +81,7 @@ Definition oracle_cmux (code : Z) (ps : list Z) (vs outs : list (list Z)) : Z :=
   let P := prec ps in
   let t := v vs 2 in let f := v vs 5 in let m2 := v vs 4 in
   let bit := nthZ m2 0 in
-  let l1 := (code =? 4010) && Nat.leb (h_dsize ps) 2 in
+  let l1 := code =? 4010 in
   let res := if l1 then nth 0 outs [] else obs ps vs 0 in
   let same := if l1 then flag ps vs 0 else flag ps vs 1 in
   let b := h_in_b ps in let sz := h_in_size ps in
